@@ -5,6 +5,7 @@
 package main
 
 import (
+	"bytes"
 	"context"
 	"encoding/json"
 	"errors"
@@ -161,6 +162,39 @@ func scenario(seed int64, idx int, withExpiry bool) run {
 		out.human = append(out.human, human+" -> "+res)
 	}
 	violate := func(k, w string) { out.viol = append(out.viol, Violation{k, w}) }
+	// C19 on the read replies: every transaction of a reply, mapped back from its wire form, is one of the saved transactions with every
+	// signed field intact (so it still verifies) and no two entries of one reply are the same transaction
+	checkWire := func(arr []*protobufcompiled.Transaction, where string) {
+		seen := map[[32]byte]bool{}
+		for k, pt := range arr {
+			got, err := transformers.ProtoTrxToTrx(pt)
+			if err != nil {
+				violate("wire-form-changed-in-reply", fmt.Sprintf("%s: entry %d of %d does not convert back: %v", where, k, len(arr), err))
+				return
+			}
+			id, known := hid[got.Hash]
+			if !known || seen[got.Hash] {
+				violate("wire-form-changed-in-reply", fmt.Sprintf("%s: entry %d of %d carries a hash that is unknown or repeated in the reply", where, k, len(arr)))
+				return
+			}
+			seen[got.Hash] = true
+			var orig transaction.Transaction
+			for _, it := range items {
+				if it.id == id {
+					orig = it.t
+				}
+			}
+			if got.IssuerAddress != orig.IssuerAddress || got.ReceiverAddress != orig.ReceiverAddress || got.Subject != orig.Subject || !bytes.Equal(got.Data, orig.Data) ||
+				!bytes.Equal(got.IssuerSignature, orig.IssuerSignature) || got.Spice != orig.Spice || got.CreatedAt.UnixNano() != orig.CreatedAt.UnixNano() ||
+				got.VerifyIssuer(wallet.NewVerifier()) != nil {
+				violate("wire-form-changed-in-reply", fmt.Sprintf("%s: transaction %d came back with a changed signed field or no longer verifies", where, id))
+				return
+			}
+		}
+		if len(arr) >= 2 {
+			out.stats["wire.reply_with_several_transactions"]++
+		}
+	}
 	blobs := map[string][]byte{}
 	blobID := map[string]int{}
 	nextBlob := 1
@@ -293,11 +327,16 @@ func scenario(seed int64, idx int, withExpiry bool) run {
 			a := ws[rng.Intn(len(ws))]
 			signer := a
 			blobOwner := a
-			switch rng.Intn(5) {
+			replay := ""
+			switch rng.Intn(8) {
 			case 0:
 				signer = ws[(aid(a.Address()))%len(ws)] // wrong key
 			case 1:
 				blobOwner = ws[(aid(a.Address()))%len(ws)] // foreign challenge
+			case 5:
+				replay = "balance" // a captured Balance request of the same wallet (its own signature over its own address), replayed here
+			case 6, 7:
+				replay = "hash" // a captured Saved / Reject request (its own signature over a 32-byte transaction hash), replayed here
 			}
 			blob, ok := blobs[blobOwner.Address()]
 			if !ok {
@@ -307,10 +346,19 @@ func scenario(seed int64, idx int, withExpiry bool) run {
 			if blobOwner != a {
 				bid += 1000
 			}
+			switch replay {
+			case "balance":
+				blob, bid = []byte(a.Address()), 900001
+			case "hash":
+				h := make([]byte, 32)
+				rng.Read(h)
+				blob, bid = h, 900002
+			}
 			d, s := signer.Sign(blob)
 			resp, err := srv.Waiting(bg, &protobufcompiled.SignedHash{Address: a.Address(), Data: blob, Hash: d[:], Signature: s})
 			res := "NErr"
 			if err == nil {
+				checkWire(resp.Array, "Waiting")
 				var ids []int
 				for _, t := range resp.Array {
 					ids = append(ids, hid[[32]byte(t.Hash)])
@@ -320,6 +368,12 @@ func scenario(seed int64, idx int, withExpiry bool) run {
 				if signer != a || blobOwner != a {
 					violate("read-without-proof-of-ownership", fmt.Sprintf("Waiting for %d answered a request signed by %d over the challenge of %d", aid(a.Address()), aid(signer.Address()), aid(blobOwner.Address())))
 				}
+				if replay != "" {
+					violate("read-without-challenge", fmt.Sprintf("Waiting for %d answered a replayed %s request: the signed data is not a challenge this server issued", aid(a.Address()), replay))
+				}
+			}
+			if replay != "" {
+				out.stats["waiting.replayed_"+replay]++
 			}
 			record(fmt.Sprintf("NWaiting %d %d %v", aid(a.Address()), bid, signer == a), res, fmt.Sprintf("waiting %d blob-of=%d signed-by=%d", aid(a.Address()), aid(blobOwner.Address()), aid(signer.Address())))
 			out.stats["waiting"]++
